@@ -163,7 +163,7 @@ def _spectra_cases(args):
                         Mps.evolve = o_ev
                     out["traces"] += 1
                     if rec != [list(m_) for m_ in moves[way]]:
-                        out["viol"].append((f"C09:corrjob:schedule:{way}", f"recorded propagation calls {rec} differ from the CorrJob schedule {moves[way]}", detail))
+                        out["viol"].append((f"DRIFT:C09:corrjob:schedule:{way}", f"recorded propagation calls {rec} differ from the CorrJob schedule {moves[way]}", detail))
                     # dense reference
                     nex = 0 if stype == "abs" else 1
                     mask = st.sector_projector(model.basis, nex)
@@ -235,7 +235,7 @@ def _judge_ps_schedule(ctx, pid, ptraces, cases):
             raise MachineryError(f"no SweepPS schedule for {(t['n'], t['start'])}")
         if t["events"] != exp:
             first = next((i for i, (a, b) in enumerate(zip(t["events"], exp)) if a != b), min(len(t["events"]), len(exp)))
-            ctx.violation(f"{pid}:schedule:ps", f"recorded one-site sweep differs from the SweepPS schedule at event {first}: got {t['events'][first:first + 3]}, expected {exp[first:first + 3]}",
+            ctx.drift(f"{pid}:schedule:ps", f"recorded one-site sweep differs from the SweepPS schedule at event {first}: got {t['events'][first:first + 3]}, expected {exp[first:first + 3]}",
                           {"trace": t, "case": cases[t["idx"]]})
     ctx.notes["ps_schedule_traces"] = len(ptraces)
 
@@ -292,7 +292,7 @@ def _judge_adaptive(ctx, pid, atraces, cases):
     for t in atraces:
         ctx.traces(1)
         if verdicts[t["id"]] != "ok":
-            ctx.violation(f"{pid}:trace:adaptive:{t['kind']}:{verdicts[t['id']]}", f"TLC: recorded inner steps of the adaptive controller violate clause {verdicts[t['id']]} of AdaptiveTrace",
+            ctx.drift(f"{pid}:trace:adaptive:{t['kind']}:{verdicts[t['id']]}", f"TLC: recorded inner steps of the adaptive controller violate clause {verdicts[t['id']]} of AdaptiveTrace",
                           {"trace": t, "case": cases[t["idx"]]})
     if stats["with_rejections"]:
         ctx.sample({"adaptive_controller_trace_judged_by_TLC": donor})
